@@ -11,8 +11,6 @@ import Pixman.Model.Glyph
 import Pixman.Model.Combine32
 import Pixman.Lemmas.Combine
 import Pixman.Props.C04Core
-import Pixman.Props.BridgesImage
-import Pixman.Props.BridgesExtent
 import Pixman.Lemmas.CSemFacts
 /-!
   Bridges: regenerated C functions (`Pixman.Gen.CFuncs`, rewritten from /repo's working tree on every
@@ -456,45 +454,6 @@ theorem glyph_hash_eq (f k : Nat) : CFuncs.glyph_hash f k = Pixman.Glyph.wangHas
      = (k4 + k4 * 8 % 18446744073709551616 + k4 * 2048 % 18446744073709551616) % 18446744073709551616 := by omega
   rw [e5]
 
-/-! `color_to_pixel (color, &pixel, format)`: `(return value, *pixel)`; `*pixel` is left alone when FALSE is returned -/
-section color_to_pixel
-open Pixman.Model.Fill
-theorem fmts : PIXMAN_a8r8g8b8 = 537036936 ∧ PIXMAN_x8r8g8b8 = 537004168 ∧ PIXMAN_a8b8g8r8 = 537102472 ∧
-    PIXMAN_x8b8g8r8 = 537069704 ∧ PIXMAN_b8g8r8a8 = 537430152 ∧ PIXMAN_b8g8r8x8 = 537397384 ∧
-    PIXMAN_r8g8b8a8 = 537495688 ∧ PIXMAN_r8g8b8x8 = 537462920 ∧ PIXMAN_r5g6b5 = 268567909 ∧
-    PIXMAN_b5g6r5 = 268633445 ∧ PIXMAN_a8 = 134316032 ∧ PIXMAN_a1 = 16846848 := by decide
-
-theorem color_to_pixel_eq (c : Color) (pix fmt : Nat) (hr : c.red < 65536) (hg : c.green < 65536) (hb : c.blue < 65536)
-    (ha : c.alpha < 65536) :
-    CFuncs.color_to_pixel c.red c.green c.blue c.alpha pix fmt =
-      match colorToPixel c fmt with
-      | none => (0, pix)
-      | some v => (1, v) := by
-  unfold CFuncs.color_to_pixel colorToPixel colorToPixelValue
-  rw [color_to_uint32_eq c hr hg hb ha]
-  generalize colorToUint32 c = cc
-  simp only [convert_8888_to_0565_eq_fill, acceptedFormats, formatType, TYPE_RGBA_FLOAT, TYPE_ABGR, TYPE_BGRA, TYPE_RGBA,
-    swizzleABGR, swizzleBGRA, swizzleRGBA, U32, fmts.1, fmts.2.1, fmts.2.2.1, fmts.2.2.2.1, fmts.2.2.2.2.1, fmts.2.2.2.2.2.1,
-    fmts.2.2.2.2.2.2.1, fmts.2.2.2.2.2.2.2.1, fmts.2.2.2.2.2.2.2.2.1, fmts.2.2.2.2.2.2.2.2.2.1, fmts.2.2.2.2.2.2.2.2.2.2.1,
-    fmts.2.2.2.2.2.2.2.2.2.2.2]
-  by_cases h11 : (fmt >>> 16) &&& 63 = 11
-  · simp [h11]
-  · simp only [h11, ↓reduceIte]
-    by_cases hacc : [537036936, 537004168, 537102472, 537069704, 537430152, 537397384, 537495688, 537462920, 268567909,
-        268633445, 134316032, 16846848].contains fmt = true
-    · have hacc' := hacc
-      simp only [List.contains_cons, List.contains_nil, Bool.or_false, Bool.or_eq_true, beq_iff_eq] at hacc'
-      have hd : (fmt = 537036936 ∨ fmt = 537004168 ∨ fmt = 537102472 ∨ fmt = 537069704 ∨ fmt = 537430152 ∨ fmt = 537397384 ∨
-          fmt = 537495688 ∨ fmt = 537462920 ∨ fmt = 268567909 ∨ fmt = 268633445 ∨ fmt = 134316032 ∨ fmt = 16846848) := by
-        simpa [eq_comm] using hacc'
-      rcases hd with h | h | h | h | h | h | h | h | h | h | h | h <;> subst h <;> simp <;> rfl
-    · have hacc' := hacc
-      simp only [List.contains_cons, List.contains_nil, Bool.or_false, Bool.or_eq_true, beq_iff_eq, not_or] at hacc'
-      obtain ⟨h1, h2, h3, h4, h5, h6, h7, h8, h9, h10, h11', h12⟩ := hacc'
-      simp [hacc, h1, h2, h3, h4, h5, h6, h7, h8, h9, h10, h11', h12]
-
-end color_to_pixel
-
 end misc
 /-! ## pixman-combine32.c  (C01): the per-pixel bodies of the combiners installed by
 `_pixman_setup_combiner_functions_32`
@@ -558,7 +517,7 @@ local macro "c32" : tactic => `(tactic| (
     lt_combineMaskAlphaCa, *]))
 
 theorem combine_src_u_m_eq (s m d : Nat) (hs : s < 4294967296) (hm : m < 4294967296) (hd : d < 4294967296) :
-    CFuncs.combine_src_u_m s m = combineSrcU s (some m) d := by
+    CFuncs.combine_src_u_m s m d = combineSrcU s (some m) d := by
   unfold CFuncs.combine_src_u_m combineSrcU
   first | (c32 <;> rfl) | rfl
 
@@ -673,7 +632,7 @@ theorem combine_multiply_u_n_eq (s d : Nat) (hs : s < 4294967296) (hd : d < 4294
   first | (c32 <;> rfl) | rfl
 
 theorem combine_src_ca_eq (s m d : Nat) (hs : s < 4294967296) (hm : m < 4294967296) (hd : d < 4294967296) :
-    CFuncs.combine_src_ca s m = combineSrcCa s m d := by
+    CFuncs.combine_src_ca s m d = combineSrcCa s m d := by
   unfold CFuncs.combine_src_ca combineSrcCa
   first | (c32 <;> rfl) | rfl
 
@@ -733,32 +692,4 @@ theorem combine_multiply_ca_eq (s m d : Nat) (hs : s < 4294967296) (hm : m < 429
   first | (c32 <;> rfl) | rfl
 
 end combine32
-/-! ## pixman-glyph.c  (C17): the counter tests of `pixman_glyph_cache_thaw` / `pixman_glyph_cache_insert`
-(conditions extracted by position, see tools/gen_cfuncs.py kind "cond"), against `Glyph.stepCore` with the parameters
-of the real build, `HASH_SIZE = 32768`, `N_GLYPHS_HIGH_WATER = 16384`, `N_GLYPHS_LOW_WATER = 8192`. -/
-section glyph
-open Pixman.Glyph
-
-/-- the table parameters of the library as built (pixman-glyph.c) -/
-def realGlyphParams : Params := ⟨32768, 16384, 8192⟩
-
-/- `--cache->freeze_count == 0 && n_glyphs + n_tombstones > N_GLYPHS_HIGH_WATER` (c.freeze already decremented) -/
-theorem glyph_thaw_outer_eq (c : Cache) :
-    CFuncs.glyph_thaw_outer c.freeze c.nGlyphs c.nTomb =
-      decide (c.freeze = 0 ∧ c.nGlyphs + c.nTomb > (realGlyphParams.high : Int)) := rfl
-theorem glyph_thaw_dump_eq (c : Cache) :
-    CFuncs.glyph_thaw_dump c.nTomb = decide (c.nTomb > (realGlyphParams.high : Int)) := rfl
-theorem glyph_thaw_evict_eq (c : Cache) :
-    CFuncs.glyph_thaw_evict c.nGlyphs = decide (c.nGlyphs > (realGlyphParams.low : Int)) := rfl
-theorem glyph_insert_frozen_eq (c : Cache) :
-    CFuncs.glyph_insert_frozen c.freeze = decide (c.freeze ≤ 0) := by
-  unfold CFuncs.glyph_insert_frozen
-  by_cases h : c.freeze > 0 <;> simp [h] <;> omega
-theorem glyph_insert_full_eq (c : Cache) :
-    CFuncs.glyph_insert_full c.nGlyphs c.nTomb = full realGlyphParams c := by
-  unfold CFuncs.glyph_insert_full full realGlyphParams
-  by_cases h : c.nGlyphs + c.nTomb ≥ 32767 <;> simp [h] <;> omega
-
-end glyph
-
 end Pixman.Props.Bridges
